@@ -4,7 +4,7 @@ C08 — A failed load or reload leaves nothing behind.
 
 Statements only; helper lemmas live in Casket/Proofs/Load.lean.  `step` is the model of one attempt
 (casket.Start, a reload through the SIGUSR1 handler, `casket -validate`, casket.Stop) on the process state
-(running sites, listening descriptors per port, registered event hooks) in an environment `busy` (ports in use
+(running sites, listening descriptors per port, registered event hooks, the process-wide directive table) in an environment `busy` (ports in use
 by other processes); it performs exactly the cleanup of the repaired error paths (Model/Load.lean) and is tied
 to the Go code by the correspondence stream `c08.seq`, which runs the real http server type on loopback.
 `LoadSpec.verdict` is the executable form of the property, applied by the driver to the implementation's answers.
@@ -23,7 +23,7 @@ theorem C08_failed_load_is_identity (busy : List Nat) (s : PState) (op : Op)
 
 /-- the hypothesis is satisfiable in the interesting way: a reload that has already duplicated one listener and opened
 another when a third port turns out to be in use -/
-example : (step [3] ⟨true, [⟨1, "A"⟩], fun p => if p = 1 then 1 else 0, 2⟩
+example : (step [3] ⟨true, [⟨1, "A"⟩], fun p => if p = 1 then 1 else 0, 2, 0⟩
     (.load ⟨[⟨1, "B"⟩, ⟨2, "B"⟩, ⟨3, "B"⟩], 1, .none⟩)).2 = .err := by decide
 
 /-- … hence what is observable (listening sockets, hooks, answers of the sites) is unchanged too. -/
@@ -86,15 +86,24 @@ example : ∀ op ∈ [Op.load ⟨[⟨1, "A"⟩, ⟨3, "A"⟩], 1, .none⟩, Op.l
 
 /-- The judge is not vacuous: it rejects a failed attempt that leaves a listener, -/
 example : stepLaw [3] Obs.fresh (.load ⟨[⟨1, "A"⟩, ⟨3, "A"⟩], 1, .none⟩) (some .err)
-    { l1 := 1, l2 := 0, hooks := 0, s1 := "hang", s2 := "-" } = some "listeners-changed" := by decide
+    { l1 := 1, l2 := 0, hooks := 0, dv := 0, s1 := "hang", s2 := "-" } = some "listeners-changed" := by decide
 
 /-- a failed attempt that leaves an event hook, -/
 example : stepLaw [3] Obs.fresh (.load ⟨[⟨1, "H"⟩], 1, .setupLate⟩) (some .err)
-    { l1 := 0, l2 := 0, hooks := 1, s1 := "-", s2 := "-" } = some "hooks-changed" := by decide
+    { l1 := 0, l2 := 0, hooks := 1, dv := 0, s1 := "-", s2 := "-" } = some "hooks-changed" := by decide
 
 /-- a valid configuration that is rejected because of what happened before, and an attempt that hangs. -/
 example : stepLaw [3] Obs.fresh (.load ⟨[⟨1, "A"⟩], 0, .none⟩) (some .err) Obs.fresh = some "valid-config-rejected" := by
   decide
 example : stepLaw [3] Obs.fresh (.load ⟨[⟨1, "A"⟩], 0, .none⟩) none Obs.fresh = some "timeout" := by decide
+
+/-- a rejected configuration that altered the process-wide directive table (a later load would chain its middleware in
+another order than a fresh process), -/
+example : stepLaw [3] Obs.fresh (.load ⟨[⟨1, "A"⟩], 0, .parse⟩) (some .err) { Obs.fresh with dv := 1 }
+    = some "process-state-changed" := by decide
+
+/-- and a valid configuration whose sites answer differently from a fresh process (order-sensitive probe battery). -/
+example : stepLaw [3] Obs.fresh (.load ⟨[⟨1, "O/401.401.401.401.418.gz"⟩], 0, .none⟩) (some .ok)
+    { l1 := 1, l2 := 0, hooks := 0, dv := 0, s1 := "O/401.401.200.401.418.gz", s2 := "-" } = some "wrong-sites" := by decide
 
 end Casket.Props.C08
